@@ -258,6 +258,14 @@ parsec_dtd_ordering_correctly( parsec_execution_stream_t *es,
 
                 get_out = 1;  /* by default escape */
                 if( !(PARSEC_OUTPUT == desc_op_type || PARSEC_INOUT == desc_op_type) ) {
+                    /* Count this reader before looking for its successor: once the end of the
+                     * chain is released (made_sure_nextinline_is_null) a writer inserted behind it is
+                     * activated by the inserting thread and only the reader count holds it back. */
+                    if(action_mask & PARSEC_ACTION_RELEASE_LOCAL_DEPS) {
+                        if(parsec_dtd_task_is_local(current_desc)){
+                           parsec_dtd_data_copy_reader_retain(current_task->super.data[current_dep].data_out);
+                        }
+                    }
 
                   look_for_next:
                     nextinline = (DESC_OF(current_desc, desc_flow_index))->task;
@@ -286,12 +294,6 @@ parsec_dtd_ordering_correctly( parsec_execution_stream_t *es,
                                 goto look_for_next;
                             }
 
-                        }
-                    }
-
-                    if(action_mask & PARSEC_ACTION_RELEASE_LOCAL_DEPS) {
-                        if(parsec_dtd_task_is_local(current_desc)){
-                           parsec_dtd_data_copy_reader_retain(current_task->super.data[current_dep].data_out);
                         }
                     }
                 } else {
